@@ -52,9 +52,12 @@ def gen():
         zs = st.lists(st.floats(-2, 2, width=32), min_size=5, max_size=5)
         upd = st.tuples(st.just("update"), st.sampled_from(["eager", "eager", "jit", "vmap_pos", "vmap_both"]), st.integers(0, 20),
                         st.lists(zs, min_size=nv, max_size=nv), st.sampled_from(["var", "node"]), st.lists(st.booleans(), min_size=nv, max_size=nv))
-        op = st.one_of(upd, upd, upd, upd, upd, st.tuples(st.just("repeat"), st.integers(0, 20)), st.tuples(st.just("repeat"), st.integers(0, 20)), st.tuples(st.just("extract"), st.integers(0, 20)),
+        msk = st.lists(st.booleans(), min_size=nv, max_size=nv)
+        pair = st.tuples(st.just("pair"), st.integers(0, 20), st.lists(zs, min_size=nv, max_size=nv), msk, st.lists(zs, min_size=nv, max_size=nv), msk)
+        op = st.one_of(upd, upd, upd, upd, upd, pair, st.tuples(st.just("repeat"), st.integers(0, 20)), st.tuples(st.just("repeat"), st.integers(0, 20)), st.tuples(st.just("extract"), st.integers(0, 20)),
                        st.tuples(st.just("logprob"), st.integers(0, 20))).map(list)
-        return {"spec": spec, "ops": draw(st.lists(op, min_size=4, max_size=12)), "pending": draw(st.booleans()), "clash": draw(st.booleans())}
+        return {"spec": spec, "ops": draw(st.lists(op, min_size=4, max_size=12)), "pending": draw(st.booleans()), "clash": draw(st.booleans()),
+                "dep_bij": draw(st.booleans()), "alias": draw(st.integers(0, 3)) == 0, "hi": [draw(st.sampled_from([1.5, 2.5, 3.0])) for _ in range(4)]}
 
     return g()
 
@@ -80,18 +83,28 @@ def compare_states(got, exp, exact, tag, det):
 def oracle(case):
     spec = case["spec"]
     det = lambda: f"case={case}"  # noqa: E731
-    lvars = mg.build(spec)
-    gb = lsl.GraphBuilder().add(*lvars)
-    strong = [i for i, d in enumerate(spec["vars"])]
-    clash_name = None
-    if case["clash"]:
-        # a Value node that carries the name of a variable (a valid model: node names and variable names live in separate namespaces)
-        clash_name = spec["vars"][0]["name"]
-        cnode = lsl.Value(np.float32(1.25), _name=clash_name)
-        gb.add(lsl.Calc(lambda x: jnp.asarray(x) * 2, cnode, _name="clash_user"))
-    user = gb.build_model()
-    # reference: private deep copy, fully updated
-    ref = copy.deepcopy(user)
+    clash_name = spec["vars"][0]["name"] if case["clash"] else None
+
+    def build_once():
+        from vlib.lz import tfd
+
+        lvars = mg.build(spec)
+        gb = lsl.GraphBuilder().add(*lvars)
+        if case["clash"]:
+            # a Value node that carries the name of a variable (a valid model: node names and variable names live in separate namespaces)
+            cnode = lsl.Value(np.float32(1.25), _name=clash_name)
+            gb.add(lsl.Calc(lambda x: jnp.asarray(x) * 2, cnode, _name="clash_user"))
+        if case.get("dep_bij"):
+            # a transformed variable whose (default) bijector depends on another model variable: Uniform(-1, hi) -> Sigmoid(-1, hi)
+            hi = lsl.Var(np.float32(2.0), name="hi")
+            xb = lsl.param(np.float32(0.3), lsl.Dist(tfd.Uniform, low=np.float32(-1.0), high=hi), name="xb")
+            xb.transform(None)
+            gb.add(lsl.obs(np.float32(0.1), lsl.Dist(tfd.Normal, loc=xb, scale=np.float32(1.0)), name="wb"))
+        return gb.build_model()
+
+    user = build_once()
+    # reference: an independent second build of the same program (not a deep copy: copies share function objects with the original)
+    ref = build_once()
     ref.auto_update = False
     if case["pending"]:
         user.auto_update = False
@@ -99,7 +112,14 @@ def oracle(case):
         v0.value = np.asarray(mg.values_from_z(spec, [[0.7] * len(d["z"]) for d in spec["vars"]])[0], dtype=np.float32)
     user_before = state_values(user.state)
     user_flags = {n.name: n.outdated for n in user.nodes.values()}
-    iface = gs.LieselInterface(user)
+    if case.get("alias"):
+        import warnings
+
+        with warnings.catch_warnings():
+            warnings.simplefilter("ignore")
+            iface = lsl.GooseModel(user)          # the deprecated alias must obey the same laws
+    else:
+        iface = gs.LieselInterface(user)
     require(tree_equal_vals(user_before, state_values(user.state)) and user_flags == {n.name: n.outdated for n in user.nodes.values()},
             "constructing-interface-modified-user-model", lambda: f"flags before {sorted(k for k, v in user_flags.items() if v)} "
             f"after {sorted(n.name for n in user.nodes.values() if n.outdated)}; {det()}")
@@ -129,6 +149,11 @@ def oracle(case):
             if d["name"] == clash_name and style == "var":
                 name = user.vars[d["name"]].value_node.name      # the clash key is handled separately below
             pos[name] = jnp.asarray(np.asarray(vals[i], dtype=np.float32))
+        if case.get("dep_bij"):
+            k = int(abs(zs[0][0]) * 10) % 4
+            if k % 2 == 0:
+                pos["hi"] = jnp.float32(case["hi"][k])
+            pos["xb_transformed"] = jnp.float32(zs[0][1])
         return pos
 
     def run_update(pos, sidx, mode, tag):
@@ -188,6 +213,17 @@ def oracle(case):
             if mode == "eager" and any(m != "eager" for m in modes_seen):
                 nt_order = True
             modes_seen.append(mode)
+        elif op[0] == "pair":
+            # two eager calls in a row on the SAME state object; the second position may omit keys the first one changed
+            _, sidx, zs1, m1, zs2, m2 = op
+            sidx %= len(pool)
+            p1, p2 = make_position(zs1, "var", m1), make_position(zs2, "var", m2)
+            o1 = run_update(p1, sidx, "eager", "pair-first:")
+            o2 = run_update(p2, sidx, "eager", "pair-second:")
+            calls.append((p2, sidx, "eager", o2))
+            pool.append(materialise(o2))
+            n_updates += 2
+            modes_seen += ["eager", "eager"]
         elif op[0] == "repeat" and calls:
             pos, sidx, mode, first = calls[op[1] % len(calls)]
             again = run_update(pos, sidx, mode, "repeat:")
